@@ -163,6 +163,25 @@ def run(ctx):
                     one(p2, w2, t2, m, lab)
             res.count("siblings")
 
+    # signal / tag style files: several aliases of a particle and of its antiparticle, paired by ChargeConj statements of either
+    # direction and any spelling, the conjugate tables made by CDecay: the descriptors of every mother are the choices the file
+    # states, each alias shown as the particle it stands for and expanded with the lines of its own table
+    for i in range(40 if tier == "quick" else 600):
+        doc, ms = gen.gen_sigtag(rng)
+        text = render_doc(doc)
+        try:
+            p = DecFileParser.from_string(text)
+            p.parse()
+            wire = conv_tree(raw_parse(text))
+        except Exception:
+            res.skipped += 1
+            continue
+        have = set(p.list_decay_mother_names())
+        for m in ms:
+            if m in have:
+                one(p, wire, text, m, "signal-tag")
+        res.count("signal_tag_documents")
+
     from . import decsmall
 
     def acyclic(p, m, path=()):
